@@ -16,7 +16,7 @@ from symx.interp import Interp, InterpException  # noqa: E402
 from symx.program import Program  # noqa: E402
 from symx.values import SInt, SStr, Unsupported, Inconclusive  # noqa: E402
 
-MERGE_MODULES = {"cutadapt._align", "cutadapt._kmer_finder", "cutadapt.qualtrim"}
+MERGE_MODULES = {"cutadapt._align", "cutadapt._kmer_finder", "cutadapt.qualtrim", "cutadapt.expected_errors_h"}
 
 _state = {}
 
